@@ -215,9 +215,10 @@ type tsPending struct {
 	header  http.Header
 	body    []byte
 	netErr  string
-	// serve
+	// serve, body-chunk
 	req     *http.Request
 	reqBody []byte
+	stream  bool
 	// handle
 	hid    json.Number
 	sid    int
@@ -456,7 +457,22 @@ func (k *Kernel) tsHandlePending(p *tsPending) {
 			h[n] = latin1(strings.Join(vs, ", "))
 		}
 		evs, err := b.Send(map[string]any{"t": "serve", "world": k.W.Name, "sid": cn.id, "method": p.req.Method, "url": p.req.RequestURI,
-			"headers": h, "body": base64.StdEncoding.EncodeToString(p.reqBody), "hasBody": len(p.reqBody) > 0 || p.req.ContentLength > 0})
+			"headers": h, "body": base64.StdEncoding.EncodeToString(p.reqBody), "hasBody": p.stream || len(p.reqBody) > 0 || p.req.ContentLength > 0, "stream": p.stream})
+		if err != nil {
+			panic("sim: bridge: " + err.Error())
+		}
+		k.tsEvents(evs)
+	case "body-chunk", "body-end", "body-error":
+		msg := map[string]any{"sid": p.conn.id}
+		switch p.kind {
+		case "body-chunk":
+			msg["t"], msg["data"] = "bodyChunk", base64.StdEncoding.EncodeToString(p.reqBody)
+		case "body-end":
+			msg["t"] = "bodyEnd"
+		default:
+			msg["t"], msg["message"] = "bodyError", p.netErr
+		}
+		evs, err := b.Send(msg)
 		if err != nil {
 			panic("sim: bridge: " + err.Error())
 		}
@@ -477,19 +493,42 @@ func (k *Kernel) serveConnTS(cn *Conn) {
 		return
 	}
 	cn.ReqParsed = true
-	body, rerr := io.ReadAll(req.Body)
-	hd := &WireReq{Verb: req.Method, Target: req.RequestURI, Header: req.Header.Clone(), ConnID: cn.id, Body: body}
+	hd := &WireReq{Verb: req.Method, Target: req.RequestURI, Header: req.Header.Clone(), ConnID: cn.id}
 	cn.WireHead = hd
-	cn.call.Wire = append(cn.call.Wire, *hd)
-	if rerr != nil {
-		// the platform (not the generated code) never sees a complete request
-		cn.BodyErr = rerr
-		cn.s2c.senderEOF = true
-		cn.serverDone = true
-		k.post(kmsg{kind: "srvdone", conn: cn, ord: cn.call.Idx*1000 + cn.id})
+	hasBody := req.ContentLength != 0
+	if !hasBody {
+		cn.call.Wire = append(cn.call.Wire, *hd)
+		k.post(kmsg{kind: "ts", ts: &tsPending{kind: "serve", call: cn.call, conn: cn, req: req}, ord: cn.call.Idx})
 		return
 	}
-	k.post(kmsg{kind: "ts", ts: &tsPending{kind: "serve", call: cn.call, conn: cn, req: req, reqBody: body}, ord: cn.call.Idx})
+	// A request with a body is handed to the routes as soon as its head is complete, as a
+	// Node server does; the body follows piece by piece, as the link delivers it. Each piece
+	// is a kernel event of its own, so other requests can be served in between.
+	k.post(kmsg{kind: "ts", ts: &tsPending{kind: "serve", call: cn.call, conn: cn, req: req, stream: true}, ord: cn.call.Idx})
+	buf := make([]byte, 16<<10)
+	var all []byte
+	for {
+		n, err := req.Body.Read(buf)
+		if n > 0 {
+			piece := append([]byte(nil), buf[:n]...)
+			all = append(all, piece...)
+			k.post(kmsg{kind: "ts", ts: &tsPending{kind: "body-chunk", call: cn.call, conn: cn, reqBody: piece}, ord: cn.call.Idx})
+		}
+		if err == io.EOF {
+			hd.Body = all
+			cn.call.Wire = append(cn.call.Wire, *hd)
+			k.post(kmsg{kind: "ts", ts: &tsPending{kind: "body-end", call: cn.call, conn: cn}, ord: cn.call.Idx})
+			return
+		}
+		if err != nil {
+			// the platform reports the broken body to the route (the stream errors)
+			hd.Body = all
+			cn.call.Wire = append(cn.call.Wire, *hd)
+			cn.BodyErr = err
+			k.post(kmsg{kind: "ts", ts: &tsPending{kind: "body-error", call: cn.call, conn: cn, netErr: err.Error()}, ord: cn.call.Idx})
+			return
+		}
+	}
 }
 
 // tsOnHandle: a TS route invoked the application handler.
@@ -591,7 +630,10 @@ func (k *Kernel) tsOnServed(e map[string]any) {
 		out.WriteString("HTTP/1.1 404 Not Found\r\nContent-Type: text/plain\r\nContent-Length: 9\r\nX-Sim-Unrouted: 1\r\n\r\nnot found")
 	case e["threw"] != nil || e["requestError"] != nil:
 		cn.status = 500
-		cn.Panic = fmt.Sprintf("TS route handler rejected: %v%v", e["threw"], e["requestError"])
+		if cn.BodyErr == nil {
+			// (a route that fails because the platform reported a broken request body is not at fault)
+			cn.Panic = fmt.Sprintf("TS route handler rejected: %v%v", e["threw"], e["requestError"])
+		}
 		out.WriteString("HTTP/1.1 500 Internal Server Error\r\nContent-Length: 0\r\n\r\n")
 	default:
 		st := numInt(e["status"])
